@@ -50,7 +50,10 @@ def generate(ctx):
         ref = gen.rand_seq(rng, w)
         pool = [gen.mutate(rng, ref, p_sub=0.15, p_amb=rng.choice([0, 0.1, 0.3]), p_gap=0.05, p_lower=0.05)
                 for _ in range(rng.randint(1, 4))]
-        nt = rng.randint(1, 8)
+        big = rng.random() < 0.3          # long tie-rich target files: >= 13 candidates exercise the sort beyond small-slice paths
+        nt = rng.randint(13, 26) if big else rng.randint(1, 8)
+        if big:
+            pool = pool[:rng.randint(1, 3)]
         targets = [rng.choice(pool) for _ in range(nt)]
         undefined = False
         if rng.random() < 0.35:
@@ -70,7 +73,7 @@ def generate(ctx):
         maxd = None
         table = False
         if mode == 1:
-            K = rng.choice([0, 1, 2, 3, max(1, n - 1), n, n + 2])
+            K = rng.choice([0, 1, 2, 3, max(1, n - 1), n, n + 2] + ([12, 13, n // 2 + 6, n - 2] if big else []))
             if K == 0 or rng.random() < 0.4:
                 if measure == "snp":
                     maxd = float(rng.choice([0, 1, 2, 3, w]))
@@ -82,6 +85,6 @@ def generate(ctx):
             table = rng.random() < 0.5
         dup = len(set(targets)) < len(targets)
         cs.append(make_case(cid, mode, K, maxd, measure, table, q, t, rng.choice([0, 1, 2, 4]),
-                            {"kind": "%s:%s" % ("closestN" if mode else "closest", measure), "nontrivial": dup or undefined}))
+                            {"kind": "%s:%s%s" % ("closestN" if mode else "closest", measure, ":big" if big else ""), "nontrivial": dup or undefined}))
         cid += 1
     return cs
